@@ -13,7 +13,7 @@ RULE = {
     "non-trivial = distinct (policy, associativity, reachable state) with associativity >= 2 / cache histories with >= 1 eviction; distinct by state or case hash."
 }
 ASSUMPTIONS = {"C10": ["reference policies R5 (timestamps for LRU, explicit node tree for PLRU)", "LRU get_repr() is judged by the order it induces (ascending = oldest first), not by its absolute numbers", "associativities above the explored bound are only sampled by random histories"]}
-REQUIRED = {"C10": ["bfs_transitions", "victim_checks", "idempotence_checks", "lru_order_checks", "set_tag_checks", "evictions", "random_history_accesses", "simcfg_fills_observed", "contains_probes"]}
+REQUIRED = {"C10": ["below_range_rejected", "long_history_tag_checks", "bfs_transitions", "victim_checks", "idempotence_checks", "lru_order_checks", "set_tag_checks", "evictions", "random_history_accesses", "simcfg_fills_observed", "contains_probes"]}
 
 
 def plan(prop, tier, seed):
@@ -31,6 +31,10 @@ def plan(prop, tier, seed):
     # generic Cache driven directly through its public read_block / write_block
     sh += [{"kind": "blind", "n": 300 if q else 6000, "shard": i} for i in range(2 if q else 6)]
     sh += [{"kind": "rawcache", "n": 150 if q else 3000, "shard": i} for i in range(2 if q else 6)]
+    # long histories on bare memory systems (hot phases, then conflict misses): the ways the fills take, by resident tag
+    from .cache import LONGHIST
+
+    sh += [{"engine": "cache", "kind": "longhist", "cfgi": i, "shard": i} for i in range(len(LONGHIST))]
     return sh
 
 
